@@ -265,7 +265,9 @@ func run(c *Case) error {
 		// a second reply for a call that was already answered (or, with none answered, an unknown tag)
 		var m *ref9p.Msg
 		for _, i := range order {
-			if ends[i] <= cut {
+			// (with a late caller the answered call's tag may already be in use
+			// again, and the duplicate would be a reply to the late call)
+			if ends[i] <= cut && !c.Late {
 				m = peer.Answer(reqs[fids[i].Fid])
 			}
 		}
@@ -312,6 +314,13 @@ func run(c *Case) error {
 		}
 	}
 	// ---- later calls fail promptly
+	if c.Fail == "duptag" && c.After > 0 {
+		// "later" means after the client met the duplicate: a call that takes
+		// the recycled tag before that is, for the client, what the frame answers
+		if !ctl.WaitSeen("clnt", "clnt.recv.closing", deadline) {
+			return hangErr("the client did not react to a second reply for an answered tag within the deadline")
+		}
+	}
 	for k := 0; k < c.After; k++ {
 		ch := make(chan *result, 1)
 		f := mkfid()
